@@ -547,8 +547,6 @@ class Ovld:
         return rebuild
 
     def _compile(self):
-        self._lock_parents()
-
         if self.name is None:
             self.name = self.__name__ = f"ovld{self.id}"
 
@@ -580,6 +578,10 @@ class Ovld:
         for handler in handlers:
             handler.__globals__[f"___MAP{self.id}"] = self.map
 
+        # Only a function that could be built holds its parents to what it
+        # was built from: after a failed build the offending method must
+        # still be removable, wherever it lives.
+        self._lock_parents()
         self._compiled = True
 
     def resolve(self, *args):
